@@ -110,8 +110,8 @@ def run(ctx):
                'sending state reads live request parameters: %s' % [q.fmt(a) for a in live])
         hold = state_outcomes(fsm, st, {'self.header_source.ready': False})
         go = state_outcomes(fsm, st, {'self.header_source.ready': True})
-        done = [a for a in here if a.lhs.canon() == 'self.interface.done' and q.atoms(a) == {('self.header_source.ready', True)}
-                and q.is_one(a.rhs)]
+        done = [a for a in (q.fold(ir, x) for x in here) if a.lhs.canon() == 'self.interface.done' and
+                q.atoms(a) == {('self.header_source.ready', True)} and q.is_one(a.rhs)]
         ctx.ob('C45.send-until-ready', 'TransactionPacketGenerator.send_%s.exit' % kind,
                set(hold) == {None} and set(go) == {disp} and len(done) == 1, fsm.state_loc[st],
                'sending state must hold until header_source.ready, then return to dispatch raising done: hold=%s go=%s' % (
